@@ -481,15 +481,16 @@ pub fn cases(tier: Tier) -> Vec<Case> {
     let coef = [0.0, 1.0, -1.0, 2.0];
     match tier {
         Tier::Quick => {
-            for m in 1..=2 { for s in systems(1, m, &coef, &bias) { v.push(Case::Transform(s)); } }
+            for m in 1..=3 { for s in systems(1, m, &coef, &bias) { v.push(Case::Transform(s)); } }
             for s in systems(2, 1, &coef, &bias) { v.push(Case::Transform(s)); }
-            for (i, s) in systems(2, 2, &coef, &[-1.0, 0.0, 1.0]).into_iter().enumerate() { if i % 3 == 0 { v.push(Case::Transform(s)); } }
-            for (i, s) in systems(2, 3, &[0.0, 1.0, -1.0], &[0.0, 1.0]).into_iter().enumerate() { if i % 9 == 0 { v.push(Case::Transform(s)); } }
+            for s in systems(2, 2, &coef, &[-1.0, 0.0, 1.0]) { v.push(Case::Transform(s)); }
+            for (i, s) in systems(2, 3, &[0.0, 1.0, -1.0], &[0.0, 1.0]).into_iter().enumerate() { if i % 3 == 0 { v.push(Case::Transform(s)); } }
+            for (i, s) in systems(3, 2, &[0.0, 1.0, -1.0], &[0.0, 1.0]).into_iter().enumerate() { if i % 9 == 0 { v.push(Case::Transform(s)); } }
         }
         Tier::Thorough => {
             for m in 1..=3 { for s in systems(1, m, &coef, &bias) { v.push(Case::Transform(s)); } }
             for m in 1..=2 { for s in systems(2, m, &coef, &bias) { v.push(Case::Transform(s)); } }
-            for (i, s) in systems(2, 3, &[0.0, 1.0, -1.0], &[-1.0, 0.0, 1.0]).into_iter().enumerate() { if i % 3 == 0 { v.push(Case::Transform(s)); } }
+            for s in systems(2, 3, &[0.0, 1.0, -1.0], &[-1.0, 0.0, 1.0]) { v.push(Case::Transform(s)); }
             for (i, s) in systems(3, 2, &[0.0, 1.0, -1.0], &[0.0, 1.0]).into_iter().enumerate() { if i % 2 == 0 { v.push(Case::Transform(s)); } }
         }
     }
@@ -515,8 +516,8 @@ pub fn run(tier: Tier) -> Report {
     rep.set("distinct_nontrivial", nt);
     rep.set("rule", "polytopes: every ordered row list over the coefficient/bias alphabets; per polytope every listed argument (lattice points, translation vectors, affine maps k->n, invertible matrices with dyadic inverse, signed permutations); constructors for every dimension with every axis / bound pair incl. +-inf; one evaluation per (object, argument); non-trivial = polytope with a non-zero row, or a constructor case");
     rep.set("bound", match tier {
-        Tier::Quick => "n=1: m<=2 rows; n=2: m=1, every 3rd system with m=2, every 9th with m=3; constructors dim 1..4",
-        Tier::Thorough => "n=1: m<=3; n=2: m<=2, every 3rd with m=3; n=3: every 2nd with m=2; constructors dim 1..5",
+        Tier::Quick => "n=1: m<=3 rows; n=2: m<=2, every 3rd system with m=3; n=3: every 9th with m=2; constructors dim 1..4",
+        Tier::Thorough => "n=1: m<=3; n=2: m<=3; n=3: every 2nd with m=2; constructors dim 1..5",
     });
     rep.assume("set equality by exact mutual inclusion; contains bound to exact membership within 1e-8; simplex (irrational vertex) judged away from its boundary (margin 1e-6) through barycentric coordinates; 3-4-5 rotation judged on lattice points with margin 1e-6");
     rep
